@@ -84,6 +84,11 @@ impl DependencyGraph {
         loop {
             if let Some(result) = me.wait_results.remove(&from_id) {
                 debug_assert!(!me.edges.contains_key(&from_id));
+                #[cfg(feature = "salsa_verif")]
+                crate::verif::trace(|| crate::verif::TraceOp::Resumed {
+                    thread: format!("{from_id:?}"),
+                    result: format!("{result:?}"),
+                });
                 return result;
             }
             me = cvar.wait(me);
@@ -105,6 +110,13 @@ impl DependencyGraph {
         to_id: ThreadId,
         cvar: Pin<&EdgeCondvar>,
     ) {
+        #[cfg(feature = "salsa_verif")]
+        crate::verif::trace(|| crate::verif::TraceOp::AddEdge {
+            by: crate::verif::me(),
+            from: format!("{from_id:?}"),
+            to: format!("{to_id:?}"),
+            key: crate::verif::key(database_key),
+        });
         assert_ne!(from_id, to_id);
         debug_assert!(!self.edges.contains_key(&from_id));
         debug_assert!(!self.depends_on(to_id, from_id));
@@ -138,6 +150,12 @@ impl DependencyGraph {
     /// This will cause it resume execution (though it will have to grab
     /// the lock on this data structure first, to recover the wait result).
     fn unblock_runtime(&mut self, id: ThreadId, wait_result: WaitResult) {
+        #[cfg(feature = "salsa_verif")]
+        crate::verif::trace(|| crate::verif::TraceOp::Unblock {
+            by: crate::verif::me(),
+            thread: format!("{id:?}"),
+            result: format!("{wait_result:?}"),
+        });
         let edge = self.edges.remove(&id).expect("not blocked");
         self.wait_results.insert(id, wait_result);
 
@@ -251,6 +269,13 @@ impl DependencyGraph {
             new_owner_thread == current_thread || dg.depends_on(new_owner_thread, current_thread),
             "new owner {new_owner:?} ({new_owner_thread:?}) must be blocked on {query:?} ({current_thread:?})"
         );
+        #[cfg(feature = "salsa_verif")]
+        crate::verif::trace(|| crate::verif::TraceOp::Transfer {
+            by: crate::verif::me(),
+            query: crate::verif::key(query),
+            new_owner: crate::verif::key(new_owner),
+            new_owner_thread: format!("{new_owner_thread:?}"),
+        });
 
         let thread_changed = match dg.transferred.entry(query) {
             std::collections::hash_map::Entry::Vacant(entry) => {
@@ -419,6 +444,12 @@ impl DependencyGraph {
                         edge.blocked_on_id
                     );
                     edge.blocked_on_id = new_owner_thread;
+                    #[cfg(feature = "salsa_verif")]
+                    crate::verif::trace(|| crate::verif::TraceOp::Repoint {
+                        by: crate::verif::me(),
+                        thread: format!("{dependent:?}"),
+                        to: format!("{new_owner_thread:?}"),
+                    });
                     debug_assert!(
                         !edges.depends_on(new_owner_thread, *dependent),
                         "Circular reference between blocked edges: {edges:#?}"
